@@ -766,6 +766,41 @@ func pureOpaque(name string) model {
 	}
 }
 
+// ifaceElems returns the (tid, ref) terms of the first n elements of a []interface{} value.
+func ifaceElems(st *State, s *SliceV, n int) []*Term {
+	var out []*Term
+	cs := components(s.Elem)
+	for i := 0; i < n; i++ {
+		for _, c := range cs {
+			out = append(out, Select(st.arrayOf(s.Elem, c, s.Arr), BVAdd(s.Off, BVConst(uint64(i), 64))))
+		}
+	}
+	return out
+}
+
+// formatModel: fmt.Sprintf / fmt.Sprint as a pure function of the format string and the argument values (an
+// uninterpreted function per arity): equal inputs give equal text; nothing else is known about the text.
+func formatModel(name string, nfixed int) model {
+	opaque := pureOpaque(name)
+	return func(e *Exec, st *State, fr *Frame, fn *ssa.Function, args []Value, pos token.Pos) []Outcome {
+		va, ok := args[len(args)-1].(*SliceV)
+		if !ok || va.Len.Op != "bvconst" || va.Len.Val > 6 {
+			return opaque(e, st, fr, fn, args, pos)
+		}
+		e.note("trusted: " + name + " is a pure function of its format and argument values (uninterpreted)")
+		var in []*Term
+		for i := 0; i < nfixed; i++ {
+			s := args[i].(*StrV)
+			in = append(in, s.Data, s.Len)
+		}
+		in = append(in, ifaceElems(st, va, int(va.Len.Val))...)
+		tag := fmt.Sprintf("%s/%d", name, va.Len.Val)
+		r := &StrV{Data: App(tag+".data", ArrSort(BV(64), BV(8)), in...), Len: App(tag+".len", BV(64), in...)}
+		e.assumeValid(st, fn.Signature.Results().At(0).Type(), r)
+		return one(st, r)
+	}
+}
+
 func be(st *State, s *SliceV, n int) *Term {
 	d := st.arrayOf(s.Elem, comp{"", BV(8)}, s.Arr)
 	var r *Term
@@ -793,14 +828,17 @@ func putBE(e *Exec, st *State, fr *Frame, s *SliceV, v *Term, n int, pos token.P
 
 func init() {
 	models = map[string]model{
-		"fmt.Sprintf":              pureOpaque("fmt.Sprintf"),
-		"fmt.Sprint":               pureOpaque("fmt.Sprint"),
+		"fmt.Sprintf":              formatModel("fmt.Sprintf", 1),
+		"fmt.Sprint":               formatModel("fmt.Sprint", 0),
 		"fmt.Sprintln":             pureOpaque("fmt.Sprintln"),
 		"strconv.Itoa":             pureOpaque("strconv.Itoa"),
 		"strconv.FormatInt":        pureOpaque("strconv.FormatInt"),
 		"strings.Join":             pureOpaque("strings.Join"),
 		"unicode/utf8.ValidString": pureOpaque("utf8.ValidString"),
-		"os.Getpid":                pureOpaque("os.Getpid"),
+		"os.Getpid": func(e *Exec, st *State, fr *Frame, fn *ssa.Function, args []Value, pos token.Pos) []Outcome {
+			e.note("trusted: os.Getpid returns the same unspecified value on every call")
+			return one(st, App("os.Getpid", BV(64)))
+		},
 		"github.com/ossrs/go-oryx-lib/errors.callers": pureOpaque("errors.callers"),
 		"bytes.Equal": func(e *Exec, st *State, fr *Frame, fn *ssa.Function, args []Value, pos token.Pos) []Outcome {
 			return one(st, e.sliceEq(st, args[0].(*SliceV), args[1].(*SliceV)))
@@ -829,6 +867,36 @@ func init() {
 			s := args[1].(*SliceV)
 			e.oblige(st, fr, "safe.index", pos, BVUle(BVConst(uint64(n), 64), s.Len))
 			putBE(e, st, fr, s, args[2].(*Term), n, pos)
+			return one(st)
+		}
+	}
+	for _, w := range []int{16, 32, 64} {
+		n := w / 8
+		models[fmt.Sprintf("(encoding/binary.littleEndian).Uint%d", w)] = func(e *Exec, st *State, fr *Frame, fn *ssa.Function, args []Value, pos token.Pos) []Outcome {
+			s := args[1].(*SliceV)
+			e.oblige(st, fr, "safe.index", pos, BVUle(BVConst(uint64(n), 64), s.Len))
+			d := st.arrayOf(s.Elem, comp{"", BV(8)}, s.Arr)
+			var r *Term
+			for i := n - 1; i >= 0; i-- {
+				b := Select(d, BVAdd(s.Off, BVConst(uint64(i), 64)))
+				if r == nil {
+					r = b
+				} else {
+					r = Concat(r, b)
+				}
+			}
+			return one(st, r)
+		}
+		models[fmt.Sprintf("(encoding/binary.littleEndian).PutUint%d", w)] = func(e *Exec, st *State, fr *Frame, fn *ssa.Function, args []Value, pos token.Pos) []Outcome {
+			s := args[1].(*SliceV)
+			e.oblige(st, fr, "safe.index", pos, BVUle(BVConst(uint64(n), 64), s.Len))
+			e.frameCheck(st, fr, Loc{Key: elemKey(s.Elem), Idx: []*Term{s.Arr}}, pos)
+			c := comp{"", BV(8)}
+			d := st.arrayOf(s.Elem, c, s.Arr)
+			for i := 0; i < n; i++ {
+				d = Store(d, BVAdd(s.Off, BVConst(uint64(i), 64)), Extract(i*8+7, i*8, args[2].(*Term)))
+			}
+			st.setArrayOf(s.Elem, c, s.Arr, d)
 			return one(st)
 		}
 	}
@@ -916,6 +984,14 @@ func init() {
 		e.oblige(st, fr, "lock.not-reentrant", pos, Not(st.LoadLoc(l).(*Term)))
 		st.StoreLoc(l, True)
 		e.lockAcquired(st, l)
+		if len(e.specs.interf) > 0 && p.Kind == PObj && len(p.Path) > 0 {
+			owner := *p
+			owner.Path = append([]int(nil), p.Path[:len(p.Path)-1]...)
+			_, ot := fieldKey(p.Root, owner.Path)
+			if sty, ok := ot.Underlying().(*types.Struct); ok {
+				e.interfere(st, &owner, sty)
+			}
+		}
 		return one(st)
 	}
 	models["(*sync.Mutex).Unlock"] = func(e *Exec, st *State, fr *Frame, fn *ssa.Function, args []Value, pos token.Pos) []Outcome {
